@@ -45,6 +45,8 @@ type mfCase struct {
 	Np     int    `json:"np"`
 	Cls    string `json:"cls"`
 	Nt     int    `json:"nt"`
+	// parameters of a parameterised class (reqlist: step tokens; index: rows, index token, where)
+	Arg []interface{} `json:"arg"`
 }
 
 // one unit of work for a child: an M2 case or an M1 fuzz case
